@@ -14,6 +14,7 @@ structure Inv (src : Array UInt8) (st : St) : Prop where
   adv : st.ch ≠ eofCh → st.off < st.rdOff
   ascii : st.ch < 0x80 → byteAt src st.off = st.ch ∧ st.rdOff = st.off + 1
   nonascii : 0x80 ≤ st.ch → st.ch ≠ eofCh → 0x80 ≤ byteAt src st.off
+  decoded : st.ch = runeAt src st.off
 
 theorem byteAt_lt (src : Array UInt8) (i : Nat) : byteAt src i < 256 := by
   unfold byteAt
@@ -84,7 +85,7 @@ theorem next_ch (src : Array UInt8) (st : St) :
   all_goals rfl
 
 theorem next_inv' {src : Array UInt8} {st : St} (hrd : st.rdOff ≤ src.size) : Inv src (next src st) := by
-  refine ⟨?_, ?_, ?_, ?_, ?_, ?_⟩
+  refine ⟨?_, ?_, ?_, ?_, ?_, ?_, ?_⟩
   · rw [next_off, next_rdOff]
     split
     · rename_i hlt
@@ -127,6 +128,11 @@ theorem next_inv' {src : Array UInt8} {st : St} (hrd : st.rdOff ≤ src.size) : 
       · intro h1 _; omega
       · intro _ _; omega
     · intro _ h; exact absurd rfl h
+  · rw [next_ch, next_off]
+    unfold runeAt
+    split
+    · rfl
+    · simp only [Nat.lt_irrefl, if_false]
 
 theorem next_inv {src : Array UInt8} {st : St} (h : Inv src st) : Inv src (next src st) :=
   next_inv' h.rd_le
@@ -161,13 +167,14 @@ theorem next_off_ascii {src : Array UInt8} {st : St} (h : Inv src st) (hc : st.c
 @[simp] theorem error_lineOff (st : St) (o : Nat) (m : Msg) : (st.error o m).lineOff = st.lineOff := rfl
 
 theorem Inv.error {src : Array UInt8} {st : St} (h : Inv src st) (o : Nat) (m : Msg) : Inv src (st.error o m) :=
-  ⟨h.off_le, h.rd_le, h.eof, h.adv, h.ascii, h.nonascii⟩
+  ⟨h.off_le, h.rd_le, h.eof, h.adv, h.ascii, h.nonascii, h.decoded⟩
 
 /-- `Inv` only talks about `ch, off, rdOff` -/
 theorem Inv.congr {src : Array UInt8} {st st' : St} (h : Inv src st)
     (h1 : st'.ch = st.ch) (h2 : st'.off = st.off) (h3 : st'.rdOff = st.rdOff) : Inv src st' :=
   ⟨by rw [h2, h3]; exact h.off_le, by rw [h3]; exact h.rd_le, by rw [h1, h2]; exact h.eof,
-   by rw [h1, h2, h3]; exact h.adv, by rw [h1, h2, h3]; exact h.ascii, by rw [h1, h2]; exact h.nonascii⟩
+   by rw [h1, h2, h3]; exact h.adv, by rw [h1, h2, h3]; exact h.ascii, by rw [h1, h2]; exact h.nonascii,
+   by rw [h1, h2]; exact h.decoded⟩
 
 /-! ### the advance relation -/
 
